@@ -20,15 +20,20 @@ PROVED here, for ALL histories (induction over the message list, unbounded), spr
    migration (`second_claim_pays_nothing_scaled`; scaling factor one: `_partial`, see there); a partial withdrawal parks
    exactly the accrued amount in the record, a full withdrawal / add-to-position pays it out; a transfer changes nothing;
  * the per-step credit arithmetic (growth × active liquidity ≤ charge × scale).
-NOT PROVED (decided by the `cl` engine's oracles on the real keeper only): the history-level SUM bound
-Σ positions (claimed + claimable) ≤ Σ paid in (+ dust) — the per-step ingredient `total_credit_le_charge` and C07's
-active-liquidity invariant are proved, the summation over the position list is not; the uptime accumulators and the
-forfeit rule (phase 2: engine oracles `incentives:*`).
+   also: accumulator total shares = Σ position liquidity in every reachable state (`total_shares_eq_sum`), hence a second
+   claim pays nothing for scaling factor one too (`second_claim_pays_nothing`);
+ * **the SUM bound** (`sum_invariant`, `total_claimable_le_paid_in`, `spread_reward_solvency`): in every reachable state,
+   per pool token, (paid out + Σ positions claimable) · scale · 10¹⁸ ≤ paid in · scale · 10¹⁸ + (m/2) · 10¹⁸ where m = number
+   of messages so far + number of live positions — the half units are the half-even `MulDec` roundings of the record
+   settlements, the only rounding not in the pool's favour — hence, for histories of fewer than 2·scale ≥ 2·10¹⁸ messages,
+   paid out + Σ claimable ≤ paid in, i.e. the spread-reward address balance `fee − out` covers every claim (C01's clause).
+NOT PROVED: the dust bound in the other direction (balance − Σ claimable ≤ bound in #steps/#claims; engine oracle
+`rewards:spread-lost:*`); the uptime accumulators and the forfeit rule (phase 2: engine oracles `incentives:*`).
 -/
 import OsmoVerif.Model.CLRewards
 import OsmoVerif.Proofs.NumLemmas
 import OsmoVerif.Props.C15
-import OsmoVerif.Proofs.CLFeesHist
+import OsmoVerif.Proofs.CLFeesFinal
 import OsmoVerif.Props.C07
 
 namespace OsmoVerif.Props.C08
@@ -474,6 +479,118 @@ theorem untouched_record_unchanged {f : Fees} (hf : FullInv f) (ops : List FOp) 
     getRec (runF f ops).acc.recs x = getRec f.acc.recs x :=
   run_rec_frame ops hf hx ht
 
+/-! ## total shares, second claim, the SUM bound -/
+
+/-- the accumulator's total shares are the total liquidity of the live positions, in every reachable state. -/
+theorem total_shares_eq_sum {s spf scale : Int} (hs : 0 < s) (hspf : SpfOK spf) (hsc : 0 < scale) (ops : List FOp) :
+    (runF (initF s spf scale) ops).acc.totalShares = totalLiq (runF (initF s spf scale) ops).pool.positions :=
+  (run_sum ops (initF_full hs hspf) (initF_sum hsc)).ts
+
+/-- the SUM invariant of every reachable state (see `SumInv`): `n` = number of messages so far. -/
+theorem sum_invariant {s spf scale : Int} (hs : 0 < s) (hspf : SpfOK spf) (hsc : 0 < scale) (ops : List FOp) :
+    SumInv (runF (initF s spf scale) ops) ops.length := by
+  have := run_sum ops (initF_full hs hspf) (initF_sum (spacing := s) (spf := spf) hsc)
+  simpa using this
+
+/-- **a second claim pays nothing**, for either scaling factor: with scaling factor one the claim's sub-unit dust goes
+back into the accumulator per unit of TOTAL shares, and the claimant's share of it (shares ≤ total shares) is below one
+token. -/
+theorem second_claim_pays_nothing {f f' : Fees} {sender : String} {id : Nat} {c0 c1 : Int} (hf : FullInv f)
+    (hts : f.acc.totalShares = totalLiq f.pool.positions) (hsc : 0 < f.pool.scale)
+    (h : CLFees.collect f sender id = some (f', c0, c1)) {c : Int × Int} (hc : CLFees.claimable f' id = some c) :
+    c = (0, 0) := by
+  obtain ⟨sf, hpool, pos, r, total, hm, hid, _, hr, htot, _, _, hrec, _, eo, _, eg, _⟩ := collect_facts hf.pool.core hf.acc h
+  obtain ⟨pos2, r2, total2, hm2, hid2, hr2, htot2, hcc⟩ := claimable_spec hc
+  rw [hrec] at hr2; injection hr2 with hr2; subst hr2
+  rw [hpool] at hm2
+  have : pos2 = pos := mem_eq_of_id hf.pool.core.pos.uniq hm2 hm (by rw [hid2, hid])
+  subst this
+  obtain ⟨r0, hr0, esh, _⟩ := hf.acc.recs pos2 hm
+  rw [hid, hr] at hr0; injection hr0 with hr0; subst hr0
+  have hliq := hf.pool.core.pos.liqPos
+  have hshT : r.shares ≤ f.acc.totalShares := by rw [esh, hts]; exact liq_le_totalLiq hliq hm
+  have hsh0 : 0 ≤ r.shares := by rw [esh]; have := hliq pos2 hm; omega
+  have hz : ∀ s, claimAmt f.pool.scale (get s total2) = 0 := by
+    intro s
+    have hm' : pos2 ∈ f'.pool.positions := by rw [hpool]; exact hm
+    have hin := sf.inside pos2 hm pos2 hm' rfl s
+    rw [evSum_single, get_vsub, eg s] at hin
+    rw [(htot2 s).1]
+    simp only [get_zero]
+    apply dust_claim_zero hsc (htot s).2.2 hsh0 hshT
+    rw [hin]
+    split
+    · left; omega
+    · right; omega
+  have ha : claimAmt f.pool.scale total2.a = 0 := hz true
+  have hb : claimAmt f.pool.scale total2.b = 0 := hz false
+  rw [hcc, hpool, ha, hb]
+
+theorem sumBy_const (k : Int) (ps : List Position) : sumBy (fun _ => k) ps = ps.length * k := by
+  induction ps with
+  | nil => simp
+  | cons a as ih => simp only [sumBy_cons, ih, List.length_cons, Nat.cast_add, Nat.cast_one, Int.add_mul, Int.one_mul]; omega
+
+/-- **total claimed + claimable never exceeds what was paid in, up to the counted half-unit roundings**: in every
+reachable state whose claim queries succeed, for each pool token `b` (raw × raw units on both sides):
+`2·(paid out + Σ positions claimable)·scale·10¹⁸ ≤ 2·paid in·10¹⁸·scale + (#messages + #positions)·10¹⁸`. -/
+theorem total_claimable_le_paid_in {s spf scale : Int} (hs : 0 < s) (hspf : SpfOK spf) (hsc : 0 < scale) (ops : List FOp)
+    (hall : ∀ q ∈ (runF (initF s spf scale) ops).pool.positions, (CLFees.claimable (runF (initF s spf scale) ops) q.id).isSome)
+    (b : Bool) :
+    2 * ((outS (runF (initF s spf scale) ops) b + sumBy (claimS (runF (initF s spf scale) ops) b) (runF (initF s spf scale) ops).pool.positions)
+        * (scale * P18)) ≤
+      2 * (feeS (runF (initF s spf scale) ops) b * (P18 * scale)) +
+        ((ops.length : Int) + (runF (initF s spf scale) ops).pool.positions.length) * P18 := by
+  have hf := reachable_inv (scale := scale) hs hspf ops
+  have hsum := sum_invariant hs hspf hsc ops
+  have hscale : (runF (initF s spf scale) ops).pool.scale = scale := run_scale _ _
+  generalize runF (initF s spf scale) ops = f at *
+  have hbound := hsum.bound b
+  rw [hscale] at hbound
+  unfold phi at hbound
+  rw [hscale] at hbound
+  have hsc' : 0 < f.pool.scale := by rw [hscale]; exact hsc
+  have hle : sumBy (fun q => (2 * (scale * P18)) * claimS f b q) f.pool.positions ≤
+      sumBy (fun q => 2 * entI f b q + P18) f.pool.positions := by
+    apply sumBy_le
+    intro q hq
+    have := (claimS_le_entI hf hsc' hq (hall q hq) b).2
+    rw [hscale] at this
+    have e : 2 * (scale * P18) * claimS f b q = 2 * (claimS f b q * (scale * P18)) := by
+      rw [Int.mul_assoc, Int.mul_comm (scale * P18)]
+    rw [e]; exact this
+  rw [sumBy_mul, sumBy_add, sumBy_mul, sumBy_const] at hle
+  rw [Int.add_mul, Int.add_mul]
+  have e : 2 * (scale * P18) * sumBy (claimS f b) f.pool.positions = 2 * (sumBy (claimS f b) f.pool.positions * (scale * P18)) := by
+    rw [Int.mul_assoc, Int.mul_comm (scale * P18)]
+  rw [e] at hle
+  omega
+
+/-- **the spread-reward address covers every claim** (the solvency clause of C01 for spread rewards): in every state
+reached by fewer than `2·scale` (≥ 2·10¹⁸) messages — counting live positions too — paid out + Σ claimable ≤ paid in, i.e.
+`Σ claimable ≤ fee − out`, the address balance. -/
+theorem spread_reward_solvency {s spf scale : Int} (hs : 0 < s) (hspf : SpfOK spf) (hsc : 0 < scale) (ops : List FOp)
+    (hall : ∀ q ∈ (runF (initF s spf scale) ops).pool.positions, (CLFees.claimable (runF (initF s spf scale) ops) q.id).isSome)
+    (hsmall : (ops.length : Int) + (runF (initF s spf scale) ops).pool.positions.length < 2 * scale) (b : Bool) :
+    outS (runF (initF s spf scale) ops) b + sumBy (claimS (runF (initF s spf scale) ops) b) (runF (initF s spf scale) ops).pool.positions ≤
+      feeS (runF (initF s spf scale) ops) b := by
+  have h := total_claimable_le_paid_in hs hspf hsc ops hall b
+  generalize runF (initF s spf scale) ops = f at *
+  generalize outS f b + sumBy (claimS f b) f.pool.positions = X at *
+  generalize feeS f b = F at *
+  generalize ((ops.length : Int) + f.pool.positions.length) = m at *
+  have hP := P18_pos
+  have hK : 0 < scale * P18 := Int.mul_pos hsc hP
+  have hm : m * P18 < 2 * scale * P18 := Int.mul_lt_mul_of_pos_right hsmall hP
+  have e1 : F * (P18 * scale) = F * (scale * P18) := by rw [Int.mul_comm P18 scale]
+  rw [e1] at h
+  have h2 : X * (scale * P18) < (F + 1) * (scale * P18) := by
+    rw [Int.add_mul, Int.one_mul]
+    have e2 : 2 * scale * P18 = 2 * (scale * P18) := Int.mul_assoc _ _ _
+    omega
+  have := Int.lt_of_mul_lt_mul_right h2 (Int.le_of_lt hK)
+  omega
+
 /-! non-vacuity: a history with three positions (alice in range, carol below the price), swaps in both directions
 crossing initialised ticks, a collect, a partial withdrawal and a second collect -/
 
@@ -502,5 +619,18 @@ example :
 
 /-- the invariants hold along this history (instance of `reachable_inv`). -/
 example : FullInv (runF demoF demoFOps) := reachable_inv (by decide) ⟨by decide, by decide⟩ demoFOps
+
+/-- the hypotheses of the SUM theorems hold on this history (every claim query succeeds, far fewer than 2·scale
+messages), and its numbers: paid out 401 + claimable 5998 ≤ paid in 6400 (token0), 201 + 5798 ≤ 6000 (token1);
+total shares = Σ liquidity. -/
+example :
+    (∀ q ∈ (runF demoF demoFOps).pool.positions, (CLFees.claimable (runF demoF demoFOps) q.id).isSome) ∧
+    ((demoFOps.length : Int) + (runF demoF demoFOps).pool.positions.length < 2 * P18) ∧
+    (outS (runF demoF demoFOps) true, sumBy (claimS (runF demoF demoFOps) true) (runF demoF demoFOps).pool.positions,
+      feeS (runF demoF demoFOps) true) = (401, 5998, 6400) ∧
+    (outS (runF demoF demoFOps) false, sumBy (claimS (runF demoF demoFOps) false) (runF demoF demoFOps).pool.positions,
+      feeS (runF demoF demoFOps) false) = (201, 5798, 6000) ∧
+    (runF demoF demoFOps).acc.totalShares = totalLiq (runF demoF demoFOps).pool.positions := by
+  decide +kernel
 
 end OsmoVerif.Props.C08
